@@ -82,7 +82,7 @@ pub fn record_ops(recs: &[Record]) -> Vec<String> {
     ops
 }
 
-pub fn schedule_op(recs: &[Record]) -> String {
+pub fn schedule_op(recs: &[Record], now_ms: u64) -> String {
     let mut sn = Vec::new();
     let mut mn = Vec::new();
     let mut pf = Vec::new();
@@ -107,7 +107,7 @@ pub fn schedule_op(recs: &[Record]) -> String {
         }
     }
     let j = |v: Vec<String>| if v.is_empty() { "-".to_string() } else { v.join(";") };
-    format!("sched sn={} mn={} pf={}", j(sn), j(mn), j(pf))
+    format!("sched now={} sn={} mn={} pf={}", now_ms, j(sn), j(mn), j(pf))
 }
 
 pub fn update_op(worker: u32, msg: &FromWorkerMessage) -> Option<String> {
